@@ -31,15 +31,20 @@ RULE = ('convex functional expressions with a convex_conj (built-ins x derived c
         'moreau-model stream: f.proximal(sigma)(x) and f.convex_conj.proximal(1/sigma)(x/sigma) of '
         'every modelled expression vs the Lean execution of Fn.toProx / Prox.Fn.prox on f and on the '
         'coded conjugate Fn.conj f (raises compared in both directions), plus default-conj recipes '
-        '(FunctionalQuadraticPerturb with quadratic coefficient > 0).')
+        '(FunctionalQuadraticPerturb with quadratic coefficient > 0). sepfy stream: SeparableSum of '
+        'modelled parts on the product spaces, f(x) / f.convex_conj(y) / <x,y> / class skeletons of the '
+        'conjugate parts vs sepValue / sepConj / sepInner. extra strata (round 5): NuclearNorm pair, '
+        'simple_functional, IndicatorBox, SeparableSum.__getitem__, proximal factory pairs (lam, g, '
+        'point-wise steps), __mul__/__rmul__ corners, documented no-conjugate classes.')
 TRUSTED = ['serialiser tools/harness/functionals_common.py:wire (live ODL functional object -> '
            'model expression, by class and attributes)',
            'NumPy ufuncs / inner products (modelled as exact entry-wise maps and weighted sums)',
            'np.linalg.inv inside MatrixOperator.inverse: the driver checks M*Minv = I exactly']
 ASSUMPTIONS = ['floating-point rounding is outside the model: exact-stream inputs are dyadic so '
                'that comparison is exact; general-stream comparison uses 1e-9 relative tolerance',
-               'L2 / Lp norms, KL functionals, group norms, nuclear norm and separable sums are '
-               'outside the executable model (abstract theorems and oracle only)',
+               'L2 / Lp norms, KL functionals, group norms and the nuclear norm are outside the '
+               'executable model (abstract theorems and oracle only); separable sums are modelled for '
+               'value / convex_conj / inner product (stream sepfy), their proximal is oracle only',
                'the Moreau oracle compares the two proximals of the real code; that each proximal '
                'is the minimiser is property C07',
                'the Moreau theorems C08.moreau_exec_* assume an exact np.sqrt (SqrtOK) and the '
